@@ -140,7 +140,7 @@ def grammar(xml, target, only=None, tids=('fresh', 'same')):
                 for s1, s2 in itertools.product(S_SLOTS, S_SLOTS):
                     if s1 is None and s2 is not None:
                         continue
-                    if (tid.startswith('near') or tid.startswith('hyphen')) and s2 is not None:
+                    if (tid.startswith('near') or tid.startswith('hyphen') or tid == 'empty') and s2 is not None:
                         continue
                     for u1, u2 in itertools.product(('#O', '#T'), repeat=2):
                         if s1 is None and (u1, u2) != ('#O', '#O'):
@@ -157,7 +157,8 @@ def grammar(xml, target, only=None, tids=('fresh', 'same')):
                             T.removeChild(s)
                         # near-*: an identifier that differs from the signed one by white space only
                         T.setAttribute('ID', {'fresh': 'evil-id', 'same': oid, 'near-trailing': oid + ' ', 'near-leading': ' ' + oid,
-                                              'near-newline': oid + '\n', 'hyphen-leading': '-evil-id', 'hyphen-option': '--node-id'}[tid])
+                                              'near-newline': oid + '\n', 'hyphen-leading': '-evil-id', 'hyphen-option': '--node-id',
+                                              'empty': ''}[tid])       # (an empty ID: "no node id" for whoever tests truthiness)
                         for e in T.getElementsByTagNameNS(SAML, 'NameID'):
                             e.firstChild.data = 'mallory'
                         if target == 'Request':
@@ -443,7 +444,7 @@ def build_tasks(ctx):
         if target == 'Assertion' and kind == 'RA' and not ctx.thorough:
             continue
         cf = [c for c in CFGS] if ctx.thorough else ([c for c in CFGS if c in ((False, True, False), (False, False, True))] if target == 'Assertion' else [c for c in CFGS if c in ((True, False, False), (False, False, True))])
-        near = ('near-trailing', 'near-leading', 'near-newline', 'hyphen-leading', 'hyphen-option') if kind in ('A', 'R') else ()
+        near = ('near-trailing', 'near-leading', 'near-newline', 'hyphen-leading', 'hyphen-option', 'empty') if kind in ('A', 'R') else ()
         for coords, xml in grammar(starts[(kind, 'sha256')], target, tids=('fresh', 'same') + near):
             coords['start'] = kind
             add(coords, xml, False, cf)
@@ -454,7 +455,7 @@ def build_tasks(ctx):
             if ctx.thorough or (coords['s2'] is None and coords['tid'] == 'fresh'):
                 add(coords, xml, False, cf[:1], prime=starts[(kind, 'sha256')])
     if ctx.thorough:
-        for coords, xml in grammar(starts[('A', 'sha256')], 'Assertion'):
+        for coords, xml in grammar(starts[('A', 'sha256')], 'Assertion', tids=('fresh', 'same', 'empty')):
             coords['start'] = 'A'
             coords['enc'] = True
             add(coords, xml, True, [(False, True, False), (False, False, True)])
